@@ -237,6 +237,17 @@ def _c14_property(r):
     """"Documents carrying an id are refused" - on the implementation's own answer"""
     if r["kind"] == "patchrt" and r["case"].get("label") == "doc/with-id" and isinstance(r["impl"], dict) and r["impl"].get("class") == "ok":
         return "patchrt/doc-with-id/accepted"
+    if r["kind"] == "patchrt" and r["case"].get("label") in ("doc/valid", "doc/names-needing-escapes") and isinstance(r["impl"], dict):
+        # "converting a document into patches and applying those patches to an empty document reproduces the document"
+        from check import canon
+        try:
+            doc = json.loads(bytes.fromhex(r["case"]["doc"]).decode("utf-8"))
+        except Exception:
+            return None
+        if r["impl"].get("class") != "ok":
+            return "patchrt/valid-document/refused"
+        if canon(r["impl"].get("applied")) != canon(doc):
+            return "patchrt/round-trip-differs"
     return None
 
 
@@ -263,7 +274,7 @@ PROPS["C14"] = {
     "level_text": "Proved in Lean (Props/C14General.lean, document_roundtrip): for EVERY document in the quantifier - no id; keys, services and also-known-as, where present, non-empty lists of the right shape; any number of further members with ordinary names and arbitrary JSON values; unique names; any member order - PatchesFromDocument succeeds and applying its patches to the empty document with the composer (patch-library model included) yields a document with exactly the same members. Proved in Lean: for every document in the quantifier, applying fromDocument's patches to the empty document succeeds and gives a document with the same members; documents "
                   "with an id are refused; a value is acceptable as a patch iff it has a supported action and that action's value member (table tied to patch.go by an obligation). "
                   "The bytes round trip and 'constructed patches validate' rest on the correspondence stream (Go's encoding/json is not modelled beyond values).",
-    "level_note": "Trusted: Lean kernel; extractor; harness. Member names with JSON-pointer or quoting metacharacters are outside the quantifier (the driver answers out-of-domain).",
+    "level_note": "Trusted: Lean kernel; extractor; harness. The round-trip theorem is stated for ordinary member names (the property's quantifier); names that need escaping are covered by the stream since the D30 repair.",
 }
 
 
